@@ -704,3 +704,10 @@ func (k *Kernel) Reset() {
 	k.counter = 0
 	k.mu.Unlock()
 }
+
+// Put installs a rule directly (harness shortcut for bulk set-up).
+func (k *Kernel) Put(key RuleKey, attrs []Attr) {
+	k.mu.Lock()
+	k.Rules[key] = attrs
+	k.mu.Unlock()
+}
